@@ -21,8 +21,10 @@ GenConfigs == { C("vbs", 0, n, 0, 1, h) : n \in {1, 3}, h \in HashFlavours }
                 C("url", 0, 3, 0, 2, "full"), C("url", 1, 3, 0, 1, "full") }
 \* the slow kinds (real files, HTTP) separately so that the driver can size them
 GenConfigsVbs  == { c \in GenConfigs : c.kind = "vbs" }
-GenConfigsFile == { c \in GenConfigs : c.kind = "file" }
-GenConfigsUrl  == { c \in GenConfigs : c.kind = "url" }
+\* depth 3 (thorough): single-reference layouts only (two-reference layouts: depth 2 and the recorded traces)
+GenConfigsFile == { C("file", 1, 3, 1, 1, "std"), C("file", 1, 3, 1, 1, "mmap"), C("file", 0, 3, 0, 1, "mmap"),
+                    C("file", 0, 1, 0, 1, "std") }
+GenConfigsUrl  == { C("url", 1, 3, 0, 1, "range"), C("url", 0, 3, 0, 1, "full") }
 
 ExpAll == [r \in Refs |-> GetResults(r)]
 Step(op, a, b) == hist' = Append(hist, [op |-> op, a |-> a, b |-> b,
